@@ -356,7 +356,9 @@ class XGen:
                 content = [X("w:p")] if kind == "continue" else self.blocks(depth + 1, r.choice([1, 1, 2]))
                 tcs.append(X("w:tc", {}, ([X("w:tcPr", {}, pr)] if pr or self.maybe(0.5) else []) + content))
             noise = [X("w:cantSplit"), X("w:trHeight", {"w:val": "300"})] if self.maybe(0.2) else []
-            trpr = [X("w:trPr", {}, noise[:1] + [X("w:tblHeader")] + noise[1:])] if i < nhead else ([X("w:trPr", {}, noise)] if self.maybe(0.2) or noise else [])
+            # (a row flagged as header AFTER a row that is not - joined tables, repeated header rows - is a body row like its neighbours)
+            late_header = i > nhead and nhead <= 1 and self.maybe(0.15) and not any(rr < i < rr + hh for (rr, cc, hh, ww) in rects)
+            trpr = [X("w:trPr", {}, noise[:1] + [X("w:tblHeader")] + noise[1:])] if (i < nhead or late_header) else ([X("w:trPr", {}, noise)] if self.maybe(0.2) or noise else [])
             trs.append(X("w:tr", {}, trpr + tcs))
         tblpr = []
         if self.maybe(0.4):
